@@ -172,12 +172,14 @@ impl SearchTable {
         Self { search: crate::engine::search::Search::new(std::sync::Arc::new(NullTx), rx, SimpleHeuristic, crate::engine::move_order::MvvLvaMoveOrder, EngineOptions::default()), _tx: tx }
     }
 
-    /// node_type: 0 exact, 1 lower bound, 2 upper bound
-    pub fn put(&mut self, key: ZobristHash, depth: usize, value: i32, node_type: u8) {
-        self.search.verif_tt_put(key, depth, value, node_type);
+    /// node_type: 0 exact, 1 lower bound, 2 upper bound; `line_value` is the value carried by the
+    /// stored line (`TtEntry.mv`), which the search hands back on a table hit
+    pub fn put(&mut self, key: ZobristHash, depth: usize, value: i32, node_type: u8, line_value: i32) {
+        self.search.verif_tt_put(key, depth, value, node_type, line_value);
     }
 
-    pub fn get(&mut self, key: ZobristHash) -> Option<(usize, i32, u8)> {
+    /// every field of the stored entry: (depth, value, node type, value of the stored line, stored key)
+    pub fn get(&mut self, key: ZobristHash) -> Option<(usize, i32, u8, i32, ZobristHash)> {
         self.search.verif_tt_get(key)
     }
 
